@@ -56,6 +56,16 @@ D = {
  "C12-c": ("templates: taskN.ran becomes a plain bool", "directive returns early while a task is still running; race detector; nothing else ordering the accesses"),
  "C18-c": ("flow/parallel templates: early return when the context is already done, before FlowError", "instrumented directive called with an already cancelled context"),
  "C19-c": ("scheduler loop: invalidated jobs finished in place without waiting--", "ContinueOnError; failing job with waiting dependents; emitter"),
+ "C03-c": ("Config.NumJobs clamps Concurrency; the template's NumJobs() does not count Map entries", "cff.Parallel with Task(s) and a Map but no Slice, fewer plain tasks than the limit: the map entries run one at a time"),
+ "C06-c": ("worker: exitCleanly flag replaced by currentJob != nil; the context-skip path leaves currentJob set", "fail-fast; jobs whose context is already done handed to several workers before the first failure is read"),
+ "C09-c": ("loop stops reading enqueuec while the ready list holds >= 32*Concurrency jobs", "directive with more than 33*Concurrency dependency-free jobs; context done while every worker is busy with a task that does not return"),
+ "C11-c": ("flow/task.go.tmpl: `with .FallbackWithResults` instead of `if .FallbackWith` in the recover block", "no-result task with cff.FallbackWith() (no values) that panics, or whose predicate panics"),
+ "C13-c": ("cycle.go walks inputs() instead of Dependencies (the predicate edge is missing)", "a dependency cycle through a predicate: toposort overflows the stack"),
+ "C14-c": ("compile.go: the per-call duplicate set of cff.Params keyed by types.Type pointers", "the same unnamed composite type ([]T, *T, map) given twice to cff.Params by separate type expressions"),
+ "C15-c": ("startTime := time.Now() emitted before the hoisted-argument prologue", "an identifier startTime (time.Time) of the enclosing function used in an argument expression"),
+ "C16-c": ("genFilename splits the base name at the first dot", "a source file with an extra dot in its name (stages.v2.go), default output name"),
+ "C17-c": ("compile.go: duplicate providers collected in a map; dependency slice rebuilt by map iteration", "a task consuming two values of one provider and a value of another"),
+ "C20-c": ("modifier: root arguments keyed by modifier id; the template ranges over the map (sorted keys)", "modifier mode; options on lines / columns with different digit counts"),
  "C20-a": ("modifier flow_task template: recover assigns a local err", "modifier mode; a task panics"),
  "C20-b": ("modifier mode guesses unnamed import names from the path", "modifier mode; unnamed import of .../debug/v2 (package debug) colliding with a generated import"),
 }
